@@ -189,8 +189,8 @@ theorem short_with_only_empty_cids_falls_to_tuple (M : QuicMachine κ τ ο) (p 
     derives from the DCID it is handed; `fromClientAddr` = the datagram comes from the session's client endpoint.
     (`Quic.Session.packetIsServer` is this function on the session state.) -/
 def dirIsServer (cc sc : List Bytes) (fromClientAddr : Bool) (dcid : Bytes) : Bool :=
-  if dcid.length > 0 ∧ dcid ∈ sc then false
-  else if dcid.length > 0 ∧ dcid ∈ cc then true
+  if dcid.length > 0 ∧ dcid ∈ sc ∧ dcid ∉ cc then false
+  else if dcid.length > 0 ∧ dcid ∈ cc ∧ dcid ∉ sc then true
   else if fromClientAddr then false
   else true
 
@@ -213,11 +213,11 @@ theorem own_cid_never_misdirects (M : QuicMachine κ τ ο) (p : Pkt) (s : QuicS
     · simpa [Sess.side, hm, hs, shortCandidates] using h1
     · simpa [Sess.side, hm, hs, shortCandidates] using h1
 
-/-- Hence the direction `packet_isserver` reads off the DCID it is handed agrees with the direction by address — provided
-    no non-empty CID is in both sets of the session (`hdisj`; the two endpoints choose their CIDs independently, so this again
-    holds for conformant random CIDs only with high probability). -/
+/-- Hence the direction `packet_isserver` reads off the DCID it is handed agrees with the direction by address — with NO
+    assumption about the two CID sets: since the repair of `packet_isserver` (a CID that both endpoints chose decides
+    nothing, the addresses do) this holds even when the endpoints happened to choose the same CID bytes. -/
 theorem own_cid_direction_agrees (M : QuicMachine κ τ ο) (p : Pkt) (s : QuicSess τ) (hm : s.matches p = true) (c : Bytes)
-    (h : quicTake M .short p s = some c) (hdisj : ∀ d, d ≠ [] → d ∈ M.clientCids s.st → d ∉ M.serverCids s.st) :
+    (h : quicTake M .short p s = some c) :
     dirIsServer (M.clientCids s.st) (M.serverCids s.st) (p.src == s.client) c = !(p.src == s.client) := by
   obtain ⟨c', h', hc⟩ := own_cid_never_misdirects M p s hm
   rw [h] at h'; cases h'
@@ -226,10 +226,9 @@ theorem own_cid_direction_agrees (M : QuicMachine κ τ ο) (p : Pkt) (s : QuicS
   · have hlen : 0 < c.length := List.length_pos_iff.mpr hne
     by_cases hs : p.src = s.client
     · simp only [hs, if_true] at hmem
-      simp [dirIsServer, hs, hlen, hmem]
+      by_cases hc2 : c ∈ M.clientCids s.st <;> simp [dirIsServer, hs, hlen, hmem, hc2]
     · simp only [hs, if_false] at hmem
-      have : c ∉ M.serverCids s.st := hdisj c hne hmem
-      simp [dirIsServer, hs, hlen, hmem, this]
+      by_cases hs2 : c ∈ M.serverCids s.st <;> simp [dirIsServer, hs, hlen, hmem, hs2]
 
 /-- What is chosen for a short header is the LONGEST non-empty CID of the session that the datagram starts with. -/
 theorem short_choice_is_longest (cids : List Bytes) (payload c : Bytes) (h : shortPick cids payload = some c) :
